@@ -66,6 +66,12 @@ fn one_upload(r: &mut Report, rng: &mut Rng, shard: usize, schema: &refcodec::la
         ("kernel.gz", rng.bytes(7)),
         ("firmware/sub/dir/kernel.gz", rng.bytes(9)),
         ("README", vec![]),
+        // unrelated files whose *last* path components look like a recognised path, elsewhere in the tree
+        ("backup/app0/update.spec", rng.bytes(11)),
+        ("firmware/old/firmware/kernel.gz", rng.bytes(13)),
+        ("app1/app1/update.tar.gz", rng.bytes(4)),
+        ("old/firmware/update.spec", rng.bytes(6)),
+        ("app2/update.spec/update.spec", rng.bytes(2)),
     ]
     .into_iter()
     .filter(|_| rng.chance(1, 2))
@@ -267,7 +273,7 @@ fn volume_upload(r: &mut Report, rng: &mut Rng, shard: usize, schema: &refcodec:
 
 pub fn run(ctx: &Ctx) -> i32 {
     let mut report = ctx.report("C11", "exploration");
-    report.rule = "uploads: a payload directory created by the harness (random subset of the 21 recognised paths, sizes {0, 1, block-1, block, block+1, 2*block, 65535, 65536, 200 KiB, random}, random content, plus unrelated files and sub-directories) x block size {1, 2, 127, 128, 253..257, 1024, 32767, 32768, random} x a request script {sequential full download, any order/repeated/overlapping, round robin over all files (up to all 21) for three rounds, offsets at/after end of file and u32::MAX, short, backwards} ending in completion, abort or an invalid request; plus one long upload (one file fetched 1400 / 14000 times in 32 KiB blocks: 46 / 460 MB in one exchange) {unknown id, recognised-but-absent id, missing id, missing offset, missing file container, missing TLV container}. Oracle over the scripted terminal's event log: the announcement decodes (reference codec) to exactly the set {(id, true size)}; every data request is answered by exactly the reference encoding of {id, offset, file[offset..min(offset+block,size)]} (empty = absent payload) before the next read; an invalid request yields one error, no data, end. Non-trivial = upload with at least one data request; distinct by hash of (announcement, block, requests, ending).".into();
+    report.rule = "uploads: a payload directory created by the harness (random subset of the 21 recognised paths, sizes {0, 1, block-1, block, block+1, 2*block, 65535, 65536, 200 KiB, random}, random content, plus unrelated files and sub-directories, among them files whose last path components equal a recognised path but that sit elsewhere in the tree) x block size {1, 2, 127, 128, 253..257, 1024, 32767, 32768, random} x a request script {sequential full download, any order/repeated/overlapping, round robin over all files (up to all 21) for three rounds, offsets at/after end of file and u32::MAX, short, backwards} ending in completion, abort or an invalid request; plus one long upload (one file fetched 1400 / 14000 times in 32 KiB blocks: 46 / 460 MB in one exchange) {unknown id, recognised-but-absent id, missing id, missing offset, missing file container, missing TLV container}. Oracle over the scripted terminal's event log: the announcement decodes (reference codec) to exactly the set {(id, true size)}; every data request is answered by exactly the reference encoding of {id, offset, file[offset..min(offset+block,size)]} (empty = absent payload) before the next read; an invalid request yields one error, no data, end. Non-trivial = upload with at least one data request; distinct by hash of (announcement, block, requests, ending).".into();
     report.exhaustive = Some(false);
     report.assumptions = vec!["files and directories are created under /verif/.build/<work>/scratch and removed afterwards".into(), "files > 4 GiB (u32 truncation) are not exercised".into()];
     let schema = refcodec::zvt_schema();
